@@ -283,3 +283,42 @@ func VerifH_C10_QueryNameCase() {
 	verifrt.Assert(ok && len(name) == 2 && name[1] == lower, "the upstream is asked the lower-cased name")
 	verifrt.Assert(rc.Response.Msg != nil, "one response")
 }
+
+// VerifH_C10_NonASCIIEntry: domain-set files are octet strings, not Unicode text: case-insensitivity is ASCII-only on
+// BOTH sides (the loader's folding of an entry and the router's folding of the query name). An entry whose label is one
+// arbitrary octet >= 0x80 (a lone Latin-1 letter, half of a UTF-8 sequence, …) or a two-octet sequence of such, loaded
+// from text, must select its rule for a query name carrying exactly those octets — and only for that.
+func VerifH_C10_NonASCIIEntry() {
+	verifrt.Unwind(200)
+	verifrt.CtxNoExpiry = true
+	ups := []*vUpstream{{tag: "u1"}, {tag: "u2"}}
+	uws := []*upstreamWrapper{{tag: "u1", u: ups[0]}, {tag: "u2", u: ups[1]}}
+	n := 1 + verifrt.Choose("octets", 1+verifrt.Tier) // quick: one octet; thorough: also two
+	lab := verifrt.BytesN("label", n)
+	for _, c := range lab {
+		verifrt.Assume(c >= 0x80)
+	}
+	m0 := domainmatcher.NewMixMatcher()
+	verifrt.Assume(m0.Add(append([]byte("domain:"), lab...)) == nil)
+	r := vRouter([]*rule{{matcher: m0, upstream: uws[0]}, {upstream: uws[1]}}, false)
+	qlab := append([]byte(nil), lab...)
+	same := true
+	if verifrt.Bool("other-name") {
+		qlab[0] = verifrt.Byte("other")
+		same = qlab[0] == lab[0]
+	}
+	m := dnsmsg.NewMsg()
+	m.Header.ID, m.Header.RecursionDesired = 7, true
+	q := dnsmsg.NewQuestion()
+	q.Name, q.Type, q.Class = dnsmsg.Name(append([]byte{byte(n)}, qlab...)), 1, 1
+	m.Questions = append(m.Questions, q)
+	rc := getRequestContext()
+	r.handleServerReq(m, rc)
+	verifrt.Reach("handled")
+	want := 1
+	if same {
+		want = 0
+		verifrt.Reach("listed")
+	}
+	verifrt.Assert(ups[want].calls == 1 && ups[1-want].calls == 0, "an entry with non-ASCII octets selects its rule for exactly the name carrying those octets")
+}
